@@ -241,6 +241,9 @@ def worker_main(prop, tier, shard, hyp_seed, outfile):
                     st.error = "generator unsatisfiable: " + str(e)
         if hasattr(mod, "worker_teardown"):
             mod.worker_teardown()
+        pm = sys.modules.get("pydcop")
+        if pm is not None and not os.path.realpath(pm.__file__).startswith(os.path.realpath(REPO) + os.sep):
+            st.error = "pydcop imported from %s, not from %s" % (pm.__file__, REPO)
     except BaseException as e:
         st.error = "".join(traceback.format_exception(type(e), e, e.__traceback__))[-4000:]
     with open(outfile, "w") as f:
@@ -296,14 +299,15 @@ def _spawn(args, hashseed, log):
 
 
 def write_evidence(prop, mod, tier, seed, wall, cov, violations):
-    os.makedirs(os.path.join(ROOT, "evidence"), exist_ok=True)
+    evdir = os.environ.get("VERIF_EVIDENCE_DIR") or os.path.join(ROOT, "evidence")  # override: mutant runs only
+    os.makedirs(evdir, exist_ok=True)
     ev = {
         "property_id": prop, "tier": tier, "seed": seed,
         "level": getattr(mod, "LEVEL", "exploration"), "coverage": cov,
         "assumptions": list(getattr(mod, "ASSUMPTIONS", [])), "wall_s": round(wall, 2),
         "violations": violations,
     }
-    path = os.path.join(ROOT, "evidence", prop + ".json")
+    path = os.path.join(evdir, prop + ".json")
     tmp = path + ".tmp"
     with open(tmp, "w") as f:
         json.dump(ev, f, indent=1, sort_keys=True, default=str)
@@ -311,7 +315,7 @@ def write_evidence(prop, mod, tier, seed, wall, cov, violations):
 
 
 def write_replay(prop, case, why):
-    d = os.path.join(ROOT, "replays", prop)
+    d = os.path.join(os.environ.get("VERIF_REPLAY_DIR") or os.path.join(ROOT, "replays"), prop)
     os.makedirs(d, exist_ok=True)
     path = os.path.join(d, digest_of(case) + ".json")
     with open(path, "w") as f:
